@@ -2,7 +2,7 @@
     with the repaired model satisfies the executable spec. *)
 From Coq Require Import List String Ascii Bool NArith.
 From DH Require Import Lib.CheckLib Model.Acl Model.Jwt Model.Gate Model.SecStore
-     Proofs.AclProofs Proofs.JwtProofs Proofs.GateProofs Proofs.SecStoreProofs Proofs.GateSeqProofs Check.C16Check.
+     Proofs.AclProofs Proofs.JwtProofs Proofs.GateProofs Proofs.SecStoreProofs Proofs.GateSeqProofs Proofs.IdCodecProofs Check.C16Check.
 Import ListNotations.
 Open Scope string_scope.
 
@@ -102,15 +102,13 @@ Proof.
       apply andb_true_iff. split; [now apply mem_str_spec | now apply acl_grants_b_spec].
     + cbn [cv_gate cv_file cv_init cfixed].
       pose proof (persist_fixed (c_ops c)) as Hre. cbv zeta in Hre. rewrite Hre.
-      set (s := sec_run AclFileAcls InitIndependent (c_ops c)).
-      intros H. apply andb_true_iff in H. destruct H as [H Hq]. apply andb_true_iff in H. destruct H as [Hb Ha].
-      pose proof (snapshot_agrees_pointwise _ _ Hb) as Pb. pose proof (snapshot_agrees_pointwise _ _ Ha) as Pa.
-      apply andb_true_iff. split.
-      * unfold snapshot_eqb. apply forallb_forall. intros k _.
-        destruct (Pb k) as [B1 B2]. destruct (Pa k) as [A1 A2].
-        rewrite <- B1, <- A1, <- B2, <- A2, opt_acl_eqb_refl. now destruct (clientb s k).
-      * eapply forallb_impl; [|exact Hq]. intros q Hr.
-        apply req_step in Hr; [|exact routes_compiled_ok].
-        unfold req_spec_ok in *. destruct (N.eqb (q_class q) 0); [|reflexivity].
-        rewrite <- Hr. apply gate_spec_b_ext. intros k. symmetry. apply (Pb k).
+      pose proof (run_matches_spec (c_ops c)) as [M1 M2]. cbv zeta in M1, M2.
+      set (s := sec_run AclFileAcls InitIndependent (c_ops c)) in *.
+      assert (Es : forall o, snapshot_agrees (spec_state (c_ops c)) o = snapshot_agrees s o).
+      { intros o. unfold snapshot_agrees, spec_state. cbn [mem_clients mem_acls]. now rewrite <- M1, <- M2. }
+      assert (Eg : forall g, gets_agree (spec_state (c_ops c)) g = gets_agree s g).
+      { intros g. unfold gets_agree, spec_state. cbn [mem_acls]. now rewrite <- M2. }
+      rewrite !Es, Eg. unfold spec_state. cbn [mem_acls]. rewrite <- M2.
+      intros H. apply andb_true_iff in H. destruct H as [H Hq]. rewrite H. cbn [andb].
+      eapply forallb_impl; [|exact Hq]. intros q Hr. apply req_step; [exact routes_compiled_ok | exact Hr].
 Qed.
